@@ -1248,8 +1248,12 @@ def make_stub(name, results=("FINISHED", "PUNT", "REQUEUE"), may_raise=True, hav
                 eo.fields["_ignored"] = fresh_enum(eng, st, "cloudsync.types:IgnoreReason", P.fresh_name(short + ".ignored"))
                 eo.fields["_priority"] = named("real", P.fresh_name(short + ".priority"))
                 st.touch(eo)
+        eff.tag = BT
         if may_raise:
             s2 = st.clone()
+            # the raising outcome gets its own log record (ok = False); the record above belongs to the returning outcome
+            s2.effects = list(s2.effects)
+            s2.effects[-1] = Effect("mgr", short, list(args), kw, None, tag=BF)
             allowed = [cls(eng, "cloudsync.exceptions:" + n) for n in CLOUD_EXC] + [ClassRef("Exception")]
             ex = eng.sym_exc(s2, allowed, prefix=short + ".exc")
             res.append((s2, (RAISE, ex)))
@@ -1279,6 +1283,10 @@ def make_stub(name, results=("FINISHED", "PUNT", "REQUEUE"), may_raise=True, hav
         res.append((st, (VAL, rv)))
         return res
     return h
+
+
+def _stub_returned(e):
+    return e.result is not None
 
 
 def install_state_lookups(eng):
